@@ -103,6 +103,9 @@ func genLabelProg(t *rapid.T, mode int, org int64, withFar bool) Prog {
 		case k == 8: // LGDT [label]
 			p.Items = append(p.Items, Item{Kind: ItMarker, Ser: ser}, Item{Kind: ItStmt, Text: "LGDT [" + lab + "]", Cls: "ref.lgdt", Ref: lab, RefAs: "lgdt", Ser: ser})
 			ser++
+		case k == 9 && withFar && rapid.Bool().Draw(t, "numbr"): // branch to a numeric address (sized as the near form; its displacement depends on the origin, so C16 leaves it out)
+			mn := rapid.SampledFrom([]string{"JMP", "CALL", "JE", "JNZ", "JA"}).Draw(t, "numbrmn")
+			p.Items = append(p.Items, Item{Kind: ItStmt, Text: fmt.Sprintf("%s 0x%x", mn, rapid.SampledFrom([]int64{0, 0x1234, 0x7c00, 0xc200}).Draw(t, "numbrt")), Cls: "branch.num"})
 		default:
 			text, cls := genPlainStmt(t, mode, true)
 			p.Items = append(p.Items, Item{Kind: ItStmt, Text: text, Cls: cls})
